@@ -131,13 +131,22 @@ def gen_case(rng, tier, idx):
         mac_pool.append(mac_pool[0].upper() if mac_pool[0] != mac_pool[0].upper() else mac_pool[0].lower())
     host_pool = [h for h in (T.gen_otherhost(rng, cfg["fqdn"]) for _ in range(rng.randint(1, 5))) if h]
     kinds = ["ip", "ip", "ip", "mac", "fqdn", "short", "otherhost", "otherhost", "kw", "fill"]
+    if rng.random() < 0.35:
+        # keywords nested in one another, in either configured order
+        pair = rng.choice([["ZEBRA", "ZEBRANET"], ["uniq", "uniqzz"], ["GQ", "MGQJ"]])
+        if rng.random() < 0.5:
+            pair.reverse()
+        cfg["keywords"] = [k for k in cfg["keywords"] if k not in pair] + pair
+        rng.shuffle(cfg["keywords"])
+        kinds = kinds + ["kw"]
+    suffixes = rng.random() < 0.5         # addresses followed by '.', ',', ':port', '/prefix'
     calls = []
     base = rng.randint(0, 10 ** 6)
     for c in range(rng.randint(3, 30 if tier == "quick" else 60)):
         lines = []
         for l in range(rng.randint(1, 20)):
             lines.append(T.gen_line(rng, cfg, "~~%d~%d~%d~~" % (base, c, l), kinds=kinds, ip_pool=ip_pool, mac_pool=mac_pool,
-                                    host_pool=host_pool, plain_tokens=True))
+                                    host_pool=host_pool, plain_tokens=not suffixes))
         calls.append(lines)
     return {"cfg": cfg, "calls": calls}
 
@@ -167,14 +176,22 @@ def run_case(spec, ctx):
         planted = {"ip": set(), "host": set(), "mac": set(), "kw": set()}
         inv0 = _STATS["inv"]
         issued_ip = set()
+        kws = list(cfg.get("keywords") or [])
+        nested_kw = set(a for a in kws for b in kws if a != b and (a in b or b in a))
+        all_out = []
+        any_f9 = False
         for lines in spec["calls"]:
             rendered = [T.render(ls) for ls in lines]
+            for kw_ in kws:
+                if any(kw_ in r_ for r_ in rendered):
+                    planted["kw"].add(kw_)
             try:
                 out = cleaner.clean_content(list(rendered))
             except InvariantBroken as ex:
                 ctx.violation("obfuscator-table-invariant-broken", {"error": str(ex)[:500]})
                 return True
             outby = dict((T.tag_of(o), o) for o in out if o)
+            all_out.extend(o for o in out if o)
             ipobf = cleaner.obfuscate.get("ip")
             for ls, line in zip(lines, rendered):
                 o = outby.get(ls["tag"])
@@ -184,11 +201,23 @@ def run_case(spec, ctx):
                 parts = T.split_slots(ls, o)
                 line_ips = [s[1] for s in ls["slots"] if s[0] == "ip"]
                 f9 = _f9_shape(line_ips, issued_ip | (set(x["obfuscated"] for x in ipobf.mapping()) if ipobf else set()))
+                any_f9 = any_f9 or f9
                 if parts is None:
                     ctx.violation(KNOWN_F9 if f9 else "output-skeleton-broken", {"line": line, "output": o})
                     continue
                 for (k, v, shown), got in zip(ls["slots"], parts):
                     ctx.count("slots_reconstructed")
+                    if k == "ip" and shown != v:
+                        # the text planted behind the address is not part of it and must come through unchanged
+                        suffix = shown[len(v):]
+                        ctx.count("ip_slots_with_trailing_punctuation")
+                        if not got.endswith(suffix):
+                            ctx.violation(KNOWN_F9 if f9 else "non-sensitive-slot-changed", {"slot": shown, "got": got, "line": line, "output": o})
+                            continue
+                        got = got[:len(got) - len(suffix)]
+                    if k == "kw" and v in nested_kw:
+                        ctx.count("nested_keyword_slots")
+                        continue        # which of two overlapping keywords wins is not fixed; judged through the mapping below
                     fam = {"ip": "ip", "mac": "mac", "fqdn": "host", "short": "host", "otherhost": "host", "kw": "kw"}.get(k)
                     if fam is None:
                         if got != shown:
@@ -273,6 +302,12 @@ def run_case(spec, ctx):
             for orig, s in mp:
                 if orig not in planted[fam] and not (fam == "host" and orig == fqdn):
                     ctx.violation("mapping-lists-original-that-never-occurred", {"kind": fam, "original": orig, "substitute": s})
+                # "pairs every replaced original with the substitute that actually appears in the output"
+                if fam in ("kw", "ip") and s != orig and not (fam == "ip" and any_f9) and not (fam == "ip" and orig == "127.0.0.1"):
+                    ctx.count("mapping_substitutes_searched_in_output")
+                    if not any(s in o_ for o_ in all_out):
+                        ctx.violation("mapping-substitute-appears-nowhere-in-output", {"kind": fam, "original": orig, "substitute": s,
+                                                                                       "keywords": kws if fam == "kw" else None})
         return nontrivial(spec)
     finally:
         shutil.rmtree(base, ignore_errors=True)
